@@ -20,7 +20,11 @@ CanonOf(vs) == [i \in 1..Len(vs) |-> vs[i].c]
 RowClosingOps == {"end_row", "write_row", "finish", "finish_one", "finish_error", "drop"}
 
 \* a refused write_col / end_row that the shim handles instead of propagating it with `?` ("cont" in the scenario)
-Handled(x) == x.res = "err" /\ x.op.op \in {"write_col", "end_row"} /\ "cont" \in DOMAIN x.op /\ x.op.cont
+IsBad(v) == "bad" \in DOMAIN v /\ v.bad       \* a generic Value::Date / Value::Time that is no date / a negative time (scenario marker)
+FirstBad(vs) == LET S == {j \in 1..Len(vs) : IsBad(vs[j])} IN IF S = {} THEN 0 ELSE CHOOSE j \in S : \A k \in S : j <= k
+\* ... and a write_row refused at such a value: the cells before it stay in the row, the shim completes it by hand
+HandledRow(x) == x.res = "err" /\ x.op.op = "write_row" /\ "cont" \in DOMAIN x.op /\ x.op.cont /\ FirstBad(x.op.vs) # 0
+Handled(x) == (x.res = "err" /\ x.op.op \in {"write_col", "end_row"} /\ "cont" \in DOMAIN x.op /\ x.op.cont) \/ HandledRow(x)
 
 \* ---- was a refusal justified? ----
 \* Refusals come back as InvalidData / Other; other kinds are connection errors and are judged elsewhere.
@@ -42,7 +46,7 @@ Refusal(x, cur, ctx) ==
      (IF nc = 0 THEN {V("C03", ctx.at, "write_col refused in a zero-column resultset")}
       ELSE IF ~ctx.bin THEN
            \* (generic Value::Date / Value::Time may hold what is no date or a negative time: refusable)
-           (IF o.v.k = "myc" /\ o.v.c.t \in {"date", "dt", "time"} THEN {}
+           (IF IsBad(o.v) \/ (o.v.k = "myc" /\ o.v.c.t \in {"date", "dt", "time"}) THEN {}
             ELSE {V("C06", ctx.at, "a value the shim wrote in answer to a text query was refused")})
       ELSE IF k > nc THEN {}
       ELSE IF o.v.c.t = "null" THEN
@@ -54,7 +58,7 @@ Refusal(x, cur, ctx) ==
       ELSE IF o.v.c.t \in {"bytes", "f32", "f64", "date", "dt"} /\ Compat(o.v.c, cur.cols[k].ty) = "carries"
            THEN {V("C07", ctx.at, "a value was refused although its column type carries it")}
       ELSE {})
-  ELSE IF o.op = "write_row" /\ ~ctx.bin /\ (nc = 0 \/ Len(cur.cells) + Len(o.vs) = nc)
+  ELSE IF o.op = "write_row" /\ ~ctx.bin /\ FirstBad(o.vs) = 0 /\ (nc = 0 \/ Len(cur.cells) + Len(o.vs) = nc)
      THEN {V("C06", ctx.at, "a row of the declared shape was refused in a text resultset")}
   ELSE IF o.op = "end_row" /\ (nc = 0 \/ Len(cur.cells) = nc)
      THEN {V("C03", ctx.at, "end_row refused for a row of the declared shape")}
@@ -74,7 +78,9 @@ Den(prog, i, cur, units, viol, ctx) ==
       name == o.op
       nc == Len(cur.cols)
   IN
-  IF Handled(prog[i]) THEN
+  IF HandledRow(prog[i]) THEN
+     Den(prog, i + 1, [cur EXCEPT !.cells = @ \o CanonOf(SubSeq(o.vs, 1, FirstBad(o.vs) - 1))], units, viol, ctx)
+  ELSE IF Handled(prog[i]) THEN
      \* a refused write_col that the shim handles (it carries on with the same row writer): the call
      \* must have left nothing behind, so the program means what it means without it
      Den(prog, i + 1, cur, units, viol \cup Refusal(prog[i], cur, ctx), ctx)
@@ -146,7 +152,8 @@ ColsCmp(dcs, ecs, at) ==
 TextRowCmp(p, exp, at) ==
   LET tc == TextCells(p, 1, << >>) IN
   IF ~tc.ok THEN [viol |-> {V("C06", at, "text row does not parse as length-encoded cells"), V("C03", at, "malformed text row (does not parse as length-encoded cells)")}, floats |-> << >>]
-  ELSE IF Len(tc.cells) # Len(exp) THEN [viol |-> {V("C03", at, "text row has a wrong number of cells")}, floats |-> << >>]
+  ELSE IF Len(tc.cells) # Len(exp) THEN [viol |-> {V("C03", at, "text row has a wrong number of cells"),
+                                                   V("C06", at, "a text row arrives with a different number of cells than the shim wrote")}, floats |-> << >>]
   ELSE LET chk == [i \in 1..Len(exp) |-> TextCellCheck(tc.cells[i], exp[i])] IN
        [viol |-> {V(IF exp[i].t = "int" THEN "C06" ELSE "C06", at, chk[i]) : i \in {j \in 1..Len(exp) : chk[j] \notin {"", "float"}}},
         floats |-> SelectSeq([i \in 1..Len(exp) |-> IF chk[i] = "float" THEN <<exp[i].t, exp[i].le, tc.cells[i].b>> ELSE << >>], LAMBDA x : x # << >>)]
@@ -163,7 +170,9 @@ BinCells(p, i, k, cols, exp, at) ==
           ELSE IF e.t = "null" THEN {V("C07", at, "NULL cell not marked in the bitmap")}
           ELSE LET c == BinCellAt(p, i, cols[k].ty, cols[k].fl) IN
             IF ~c.ok THEN {V("C07", at, "binary cell undecodable for its column type"), V("C03", at, "malformed binary row (cell undecodable)")}
-            ELSE (IF Compat(e, cols[k].ty) = "carries" /\ ~BinMatch(c.d, e)
+            \* (a temporal value that a temporal column accepts must arrive as that value as well: a DATE column
+            \* that takes a datetime may not drop a time of day or microseconds silently)
+            ELSE (IF (Compat(e, cols[k].ty) = "carries" \/ (e.t \in {"dt", "date"} /\ cols[k].ty \in {7, 10, 12})) /\ ~BinMatch(c.d, e)
                   THEN {V(IF e.t = "int" THEN "C15" ELSE "C07", at, "binary value differs from the value written")}
                        \cup (IF e.t = "int" /\ ~InRange(MathOf(e.le, e.s), ColRange(cols[k].ty, cols[k].fl))
                              THEN {V("C07", at, "an integer the column cannot represent was accepted and encoded as something else")} ELSE {})
